@@ -3,7 +3,7 @@ real-return engine (E3).  Each returns a list of (kind, message)."""
 import collections
 
 import hv
-from hv import refeval
+from hv import refeval, world
 
 
 # -- C01 -----------------------------------------------------------------
@@ -35,7 +35,7 @@ def c03(form_list, result):
             for kind, name, st, val in a.reads:
                 if st != 'ok':
                     continue
-                if kind == 'v':
+                if kind == 'v' and not isinstance(val, world.Membership):
                     if name in ref.values and ref.values[name] != val:
                         errs.append(('stale-read', f'{line} was computed from {name}={val!r} but the solution holds {ref.values[name]!r}'))
     return errs, (ref, res)
